@@ -74,6 +74,9 @@ func TestC10(t *testing.T) {
 		for _, tr := range []string{"tcp", "ipc", "tls+tcp"} {
 			cases = append(cases, mon.CaseSpec{Name: "acceptbusy/" + tr, Spec: spec{Kind: "acceptbusy", Tran: tr}})
 		}
+		for _, tr := range []string{"ipc", "tcp", "ipc"} {
+			cases = append(cases, mon.CaseSpec{Name: "acceptflood/" + tr, Spec: spec{Kind: "acceptflood", Tran: tr}})
+		}
 		for _, tr := range []string{"inproc", "ipc", "tcp"} {
 			for _, act := range []string{"socket", "listener"} {
 				for _, asyn := range []bool{false, true} {
@@ -124,6 +127,8 @@ func TestC10(t *testing.T) {
 			runAcceptBusy(c, sp)
 		case "dialwaiting":
 			runDialWaiting(c, sp)
+		case "acceptflood":
+			runAcceptFlood(c, sp)
 		case "loser":
 			runCloseLoser(c, sp)
 		}
